@@ -649,7 +649,7 @@ def _explore_budget(it, u, fname, make_args, is_bad):
     import time
     from .interp import Ctx, NeedChoice, Infeasible
     fn = u.functions[fname]
-    out, stack, nbad, t0 = [], [[]], 0, time.time()
+    out, stack, nbad, t0 = [], [[]], 0, time.process_time()      # CPU time: independent of the load of the machine
     while stack:
         dec = stack.pop()
         ctx = Ctx(dec)
@@ -672,7 +672,7 @@ def _explore_budget(it, u, fname, make_args, is_bad):
             return out, 'stopped after %d paths whose first output is not a .loc directive' % nbad
         if len(out) + len(stack) > MAX_PATHS:
             return out, 'more than %d paths' % MAX_PATHS
-        if time.time() - t0 > BUDGET_S and stack:
+        if time.process_time() - t0 > BUDGET_S and stack:
             return out, 'time budget of %d s used up after %d paths' % (BUDGET_S, len(out))
     return out, None
 
